@@ -57,7 +57,7 @@ def sev(start, dur, vel, tick, total, n, pre=None, k=None):
 class C20(Property):
     id = "C20"
     lean_module = "RosuModel.Props.C20Full"   # imports Props/C20Exact.lean (→ Props/C20.lean) and Props/C20Ieee.lean; all in namespace Rosu.C20
-    theorem_modules = ['RosuModel.Props.C20Exact', 'RosuModel.Props.C20Ieee', 'RosuModel.Props.C20IeeeTicks', 'RosuModel.Props.C20IeeeErr', 'RosuModel.Props.C20IeeeErr2', 'RosuModel.Props.C20IeeeForms', 'RosuModel.Props.C20IeeeFormsOrder']   # files whose top-level theorems are all audited
+    theorem_modules = ['RosuModel.Props.C20Exact', 'RosuModel.Props.C20Ieee', 'RosuModel.Props.C20IeeeTicks', 'RosuModel.Props.C20IeeeErr', 'RosuModel.Props.C20IeeeErr2', 'RosuModel.Props.C20IeeeForms', 'RosuModel.Props.C20IeeeFormsOrder', 'RosuModel.Props.C20IeeeOrder2']   # files whose top-level theorems are all audited
     namespace = "Rosu.C20"
     design_ref = "5.20"
     level_text = (
@@ -87,6 +87,8 @@ class C20(Property):
         "eager Rust reference written from the property text judges the implementation.")
     technique = "Lean 4 proof (induction over spans / stack discipline) + bit-exact differential correspondence on the public iterator"
     required_theorems = [
+        "repeat_le_tail_statement_false", "repeat_le_tail_nonneg_statement_false", "repeat_gt_tail_neg_float", "repeat_gt_tail_pos_float", "repeat_zero_le_tail_float",
+        "repeat_le_repeat_float", "repeat_le_tail_plus_span_float", "repeat_le_tail_of_span_ge", "repeat_le_tail_of_span_ge_limit",
         "head_exact_float", "repeat_time_err_float", "tail_time_err_float", "last_tick_time_err_float", "repeat_progress_exact_float", "span_start_mono_float",
         "last_tick_le_tail_float", "strict_order_fails_float", "last_tick_gt_tail_float",
         "tick_progress_err_float", "tick_progress_multiple_err_float", "tick_time_err_float", "tick_time_total_err_float", "span_start_err_float",
@@ -108,6 +110,12 @@ class C20(Property):
         "lt_of_not_le_float_false", "orderedFieldLaws_float_false",
     ]
     partial_theorems = {
+        "repeat_le_tail_of_span_ge / repeat_le_tail_statement_false": "Props/C20IeeeOrder2.lean (sixth session, wave 7): the order of the closed-form times on IEEE doubles is DECIDED. 'Every repeat (s + 2 ≤ n) is ≤ the "
+            "tail' is FALSE: repeat_le_tail_statement_false (A = −2−2^-51, D = 2^-53(1+2^-10), n = 4, s = 2: A+2D rounds to −2, −2+D rounds up into the denser binade, A+4D rounds to −2) and, with 0 ≤ A, "
+            "repeat_le_tail_nonneg_statement_false (A = 2147483582.9999995, D ≈ 2^-23, n = 2^29+1: the tail is 2147483647 exactly, the last repeat one ulp above), both `decide +kernel` on closed doubles. The "
+            "property's own text asks for the closed-form times, not for this order, so this is not a finding. TRUE with no magnitude hypothesis: repeat_zero_le_tail_float, repeat_le_repeat_float (repeats are "
+            "ordered among themselves), repeat_le_tail_plus_span_float (one span of slack always suffices); TRUE under one condition on D: repeat_le_tail_of_span_ge (8·2^-53(|A|+nD) + 2^-1072 ≤ D), "
+            "repeat_le_tail_of_span_ge_limit (|A|+nD ≤ 2^33 and D ≥ 2^-16: every playable slider). Not attempted: A ≥ 0 ∧ n ≤ 2^26 ⟹ repeat ≤ tail",
         "head_exact_float / repeat_time_err_float / tail_time_err_float / last_tick_time_err_float / the order facts (closed forms on IEEE DOUBLES)":
             "sixth session, Props/C20IeeeForms.lean, Props/C20IeeeFormsOrder.lean over the error-bound layer. Head: time = start and progress 0 exactly (no arithmetic). Repeats: |time - (start + (s+1) D)| <= "
             "5 * 2^-53 (|start| + (s+1) D) + 2^-1073; tail: 3 * 2^-53 (|start| + n D) + 2^-1074; last tick: IEEE max is exact (toRat_max_float), the time is one of its two operands, each within an explicit bound of "
